@@ -425,6 +425,9 @@ def render_table(ctx: Ctx, I: Interp) -> None:
             elif isinstance(it, SObj) and it.meta.get("attr_of", (None, None))[0] is x and it.meta["attr_of"][1] == "children":
                 found.add("children")
                 rr = [c for c in calls if c.target.qual == "_render_react_js"]
+                if isinstance(el, SObj) and el.kinds and el.kinds <= META_KINDS and not rr and l.kind in ("fall", "continue"):
+                    ctx.ok("C20.js", "a metadata child is skipped (it contributes no JavaScript)")
+                    continue
                 ok = len(rr) == 1 and rr[0].value and rr[0].value[0] is el and l.kind in ("fall", "continue")
                 deeper = ok and len(rr[0].value) >= 3 and rr[0].value[2] is eol
                 ctx.check(bool(ok and deeper), "C20.js", "each child is rendered once, in order, by a recursive call", where,
